@@ -232,10 +232,16 @@ def extract_chain(root):
                    "if (!mSettings.library.reportErrors(msg.file0)) return;",
                    "bool suppressed = false; if (mSuppressions.nomsg.isSuppressed(errorMessage, mUseGlobalSuppressions)) {",
                    "if (mSettings.safety && ErrorLogger::isCriticalErrorId(msg.id)) { mExitCode = 1; if (mSuppressions.nomsg.isSuppressedExplicitly(errorMessage, mUseGlobalSuppressions)) {",
-                   "temp.severity = Severity::internal; mErrorLogger.reportErr(temp); } else { mErrorLogger.reportErr(msg); } } suppressed = true; }",
+                   "temp.severity = Severity::internal; mErrorLogger.reportErr(temp); } else { mErrorLogger.reportErr(msg); } } suppressed = true;",
                    "if (errmsg.empty()) return; if (!mSettings.emitDuplicates && !(suppressed ? mSuppressedErrorList : mErrorList).emplace(std::move(errmsg)).second) return;",
                    "if (suppressed) return; if (!mSuppressions.nofail.isSuppressed(errorMessage) && !mSuppressions.nomsg.isSuppressed(errorMessage)) { mExitCode = 1; }"]:
             need(b, st, "CppCheckLogger::reportErr")
+        # after `suppressed = true;` the block closes, optionally after showing the finding to all suppressions (C24 F24c repair:
+        # one more isSuppressed call, no effect on the exit code)
+        tail_a = "suppressed = true; } std::string errmsg = msg.toString("
+        tail_b = "suppressed = true; if (!mUseGlobalSuppressions) (void)mSuppressions.nomsg.isSuppressed(errorMessage, true); } std::string errmsg = msg.toString("
+        if b.count(tail_a) + b.count(tail_b) != 1:
+            raise Unrecognised("CppCheckLogger::reportErr: unexpected statements after `suppressed = true;`")
         if b.count("mExitCode") != 2:
             raise Unrecognised("CppCheckLogger::reportErr: mExitCode used %d times (expected 2)" % b.count("mExitCode"))
         whole = strip_code(cc)
@@ -308,6 +314,22 @@ def parse_lines(stderr):
             continue
         out.append(dict(raw=l, id=p[0], file=p[1], line=int(p[2]), sev=p[4], text=l))
     return out
+
+
+def robust_harness(ctx, name, **kw):
+    """ctx.harness, retried: while a concurrent check of another property rebuilds objects of the working tree the link can fail"""
+    last = None
+    for attempt in range(8):
+        try:
+            return ctx.harness(name, **kw)
+        except core.CheckBroken as ex:
+            last = ex
+            time.sleep(6)
+            try:
+                ctx.build_repo()
+            except core.CheckBroken:
+                pass
+    raise last
 
 
 class Runner:
@@ -690,7 +712,7 @@ def run(ctx, res):
     res.extra["variant_seen"] = variant
     v = dict(PATCHED)
     drv = ctx.driver("drv_c25")
-    harness = ctx.harness("c25")
+    harness = robust_harness(ctx, "c25")
     runner = Runner(ctx, ctx.cppcheck)
     ev = Evaluator(ctx, res, runner, harness, drv, v)
     mism, viol = [], []
@@ -798,7 +820,7 @@ def search(ctx, res, ev, mism, v):
 
 def replay(ctx, res, rp):
     v = dict(PATCHED)
-    ev = Evaluator(ctx, res, Runner(ctx, ctx.cppcheck), ctx.harness("c25"), ctx.driver("drv_c25"), v)
+    ev = Evaluator(ctx, res, Runner(ctx, ctx.cppcheck), robust_harness(ctx, "c25"), ctx.driver("drv_c25"), v)
     pdir = os.path.join(ctx.tmp, "replay")
     write_project(pdir, rp["project"])
     r = ev.evaluate(pdir, rp["project"], rp["case"], "replay")
